@@ -35,8 +35,15 @@ def run(chk, tier, proof_ok):
     findings = list(findings) + of
     chk.coverage['evaluations'] = chk.coverage.get('evaluations', 0) + nruns
     chk.coverage['distinct_nontrivial'] = chk.coverage.get('distinct_nontrivial', 0) + nruns
+    ub = transdim.probe_unchecked_bounds(chk.seed)
     chk.notes += ['index bounds the constructor does not check (hypotheses 0 <= kmin, kmax <= K of '
-                  'C10_choice_feasible): ' + t for t in transdim.probe_unchecked_bounds(chk.seed)]
+                  'C10_choice_feasible): ' + t for t in ub]
+    # with such bounds the code may refuse (it raises when the index asks for more components than there
+    # are), but it must never hand out an ill-formed point: that is the property itself
+    for t in ub:
+        if 'ill-formed state' in t and not any(k == 'wf-unchecked-bounds' for k, _, _ in findings):
+            findings.append(('wf-unchecked-bounds', 'index bounds beyond the number of components: ' + t,
+                             {'probe': t, 'how_to_replay': 'transdim.probe_unchecked_bounds(seed)', 'seed': chk.seed}))
     chk.notes += ['outside the hypotheses of C10_reachable_wf: ' + t for t in transdim.probe_corner_cases(chk.seed)]
     chk.assumptions += [
         'start values are themselves well formed (index = number of non-NaN components, within the bounds); '
